@@ -101,3 +101,6 @@ def run_proofs(ctx):
     reg, cs = build()
     ctx.assume("recorded column names of a term are pairwise distinct (requires); _encode_constant assumed (abstract)")
     run_contracts(ctx, cs, reg, workloads=workloads(), concrete_env=CONCRETE_ENV)
+    from vf.proofs import c09_eval
+
+    c09_eval.run_proofs(ctx)
